@@ -1,6 +1,7 @@
 import SqlgrepModel.Lemmas.ParseClauses
 import SqlgrepModel.Lemmas.ParsePrefixClauses
 import SqlgrepModel.Lemmas.LowerNames
+import SqlgrepModel.Props.Pipeline
 /-
 C20 — parser-level section (owner: builder `pstmt`; the lexical half — letter case of keywords, whitespace,
 comments, string literals — and the C20 manifest are `Props/C20.lean`).
@@ -231,6 +232,44 @@ theorem regex_mode_case_insensitive (n : List Char) (l : Loc) (t : PTok) (r : Li
   · intro h; simp [parseRegexMode, h, next]
   · intro h
     simp [parseRegexMode, h, next]
+
+/-! ### token locations (layout) — the statement parser, the lowering, and the whole program -/
+
+/-- **The statement parser reads only the tokens** (proved outright): on a token vector with other locations
+`Parser::parse` returns the same tree up to locations, or an error of the same kind -/
+theorem parser_ignores_locations (T : PrecTables) (toks : List PTok) :
+    parseTokens T (toks.map PTok.strip) = (parseTokens T toks).strip :=
+  parseTokens_strip T toks
+
+/-- **The lowering reads a tree's locations only into errors** (proved outright): trees equal up to locations lower
+to the same statement, or to a conversion error of the same kind -/
+theorem lowering_ignores_locations (rv : List Char → Bool) (t : POp) :
+    lowerStatement rv t.eraseLoc = (lowerStatement rv t).mapErr CErr.strip :=
+  lowerStatement_erase rv t
+
+/-- whole-statement form of `names_case_insensitive`: letter case of function and aggregate names does not matter to
+any statement (projections with aggregate extraction and naming, WHERE, GROUP BY, HAVING) -/
+theorem names_case_insensitive_statement (ρ : List Char → List Char) (hρ : CaseOnly ρ) (rv : List Char → Bool) (t : POp) :
+    lowerStatement rv (t.renameCalls ρ) = (lowerStatement rv t).mapErr (CErr.rename ρ) :=
+  lowerStatement_rename ρ hρ rv t
+
+/-- **Parse to the same statement and therefore produce the same output** (C20 end to end, proved outright): texts
+that are layouts of the same lexemes — letter case of keywords, whitespace, line breaks, comments — give the same
+end-to-end run of the program (`Props/Pipeline.lean`: tokenizer `layout_invariance` + `location_blind` +
+`runText_depends_on_statements`) -/
+theorem same_statement_same_output (F : Pipeline.Facts) (D₁ D₂ Q₁ Q₂ : Lex.Layout)
+    (hD₁ : D₁.Ok (Pipeline.lexOracles F)) (hD₂ : D₂.Ok (Pipeline.lexOracles F))
+    (hQ₁ : Q₁.Ok (Pipeline.lexOracles F)) (hQ₂ : Q₂.Ok (Pipeline.lexOracles F))
+    (sameD : D₁.lexemes.map (·.tok (Pipeline.lexOracles F)) = D₂.lexemes.map (·.tok (Pipeline.lexOracles F)))
+    (sameQ : Q₁.lexemes.map (·.tok (Pipeline.lexOracles F)) = Q₂.lexemes.map (·.tok (Pipeline.lexOracles F)))
+    (fmt : Print.Format) (single : Bool) (files : List (List Nat)) (d q : LStmt)
+    (hc₁ : Pipeline.classesCover F D₁.text = true ∧ Pipeline.classesCover F Q₁.text = true)
+    (hc₂ : Pipeline.classesCover F D₂.text = true ∧ Pipeline.classesCover F Q₂.text = true)
+    (hd : Pipeline.parseText (Pipeline.lexOracles F) (Pipeline.regexValidFn F) D₁.text = .stmt d)
+    (hp : (Pipeline.createPatterns d).all (fun re => ((Utf8.decode re).bind (Pipeline.regexValidOf F)).isSome) = true)
+    (hq : Pipeline.parseText (Pipeline.lexOracles F) (Pipeline.regexValidFn F) Q₁.text = .stmt q) :
+    Pipeline.runText F D₁.text Q₁.text fmt single files = Pipeline.runText F D₂.text Q₂.text fmt single files :=
+  Props.Pipeline.same_statement_same_output F D₁ D₂ Q₁ Q₂ hD₁ hD₂ hQ₁ hQ₂ sameD sameQ fmt single files d q hc₁ hc₂ hd hp hq
 
 /-! ### non-vacuity -/
 
